@@ -11,16 +11,19 @@ extern size_t (*libsci_verif_nproc)(size_t detected);
 extern void   (*libsci_verif_slice)(const char *site, size_t th, size_t from, size_t to, size_t n);
 extern void   (*libsci_verif_iter)(const char *site, size_t comp, double a, double b, double conv);
 extern void   (*libsci_verif_cv)(const char *ev, size_t a, size_t b, size_t c, const void *data);
+extern void   (*libsci_verif_state)(const char *site, size_t step, const void *a, const void *b, const void *c);
 #define VERIF_RNG(pt, word, aux) do{ if(libsci_verif_rng) libsci_verif_rng((pt), (word), (aux)); }while(0)
 #define VERIF_NPROC(var) do{ if(libsci_verif_nproc) (var) = libsci_verif_nproc((var)); }while(0)
 #define VERIF_SLICE(site, th, from, to, n) do{ if(libsci_verif_slice) libsci_verif_slice((site), (th), (from), (to), (n)); }while(0)
 #define VERIF_ITER(site, comp, a, b, conv) do{ if(libsci_verif_iter) libsci_verif_iter((site), (comp), (a), (b), (conv)); }while(0)
 #define VERIF_CV(ev, a, b, c, data) do{ if(libsci_verif_cv) libsci_verif_cv((ev), (a), (b), (c), (data)); }while(0)
+#define VERIF_STATE(site, step, a, b, c) do{ if(libsci_verif_state) libsci_verif_state((site), (step), (a), (b), (c)); }while(0)
 #else
 #define VERIF_RNG(pt, word, aux)
 #define VERIF_NPROC(var)
 #define VERIF_SLICE(site, th, from, to, n)
 #define VERIF_ITER(site, comp, a, b, conv)
 #define VERIF_CV(ev, a, b, c, data)
+#define VERIF_STATE(site, step, a, b, c)
 #endif
 #endif
